@@ -19,7 +19,11 @@ from zmon import util
 P = inspect.Parameter
 
 
-def mkfunc(name, posonly=0, req=0, dflt=0, varargs=False, kwonly=(), kwargs=False, self_first=False, vname='args', kname='kw'):
+DEFAULT_LITERALS = ['None', "'s'", '(3,)', '()', '(1, 2)', '[]', '0', '{}', 'b"x"', '-1.5']
+
+
+def mkfunc(name, posonly=0, req=0, dflt=0, varargs=False, kwonly=(), kwargs=False, self_first=False, vname='args', kname='kw',
+           lits=None):
     """Build a real function from source text.  *req*/*dflt* count the
     positional-or-keyword parameters; *posonly* positional-only ones come
     first (the last *dflt* positional parameters overall carry defaults);
@@ -31,7 +35,7 @@ def mkfunc(name, posonly=0, req=0, dflt=0, varargs=False, kwonly=(), kwargs=Fals
     nreq = posonly + req
     out = list(names)
     for i, n in enumerate(pos):
-        out.append(n if i < nreq else '%s=%d' % (n, 100 + i))
+        out.append(n if i < nreq else '%s=%s' % (n, lits[i % len(lits)] if lits else str(100 + i)))
     npo = posonly + (1 if self_first and posonly else 0)
     if posonly:
         # positional-only marker after the positional-only names (self included when present)
@@ -42,7 +46,7 @@ def mkfunc(name, posonly=0, req=0, dflt=0, varargs=False, kwonly=(), kwargs=Fals
     elif kwonly:
         out.append('*')
     for i, has_d in enumerate(kwonly):
-        out.append('k%d=%d' % (i, 200 + i) if has_d else 'k%d' % i)
+        out.append('k%d=%s' % (i, lits[(i + 3) % len(lits)] if lits else str(200 + i)) if has_d else 'k%d' % i)
     if kwargs:
         out.append('**' + kname)
     src = 'def %s(%s):\n    "doc of %s"\n    return None\n' % (name, ', '.join(out), name)
@@ -143,6 +147,11 @@ def run_c18(ctx, rng, job):
     for idx in range(me, len(grid), nchunks):
         g = grid[idx]
         vname, kname = rng.choice([('args', 'kw'), ('rest', 'opts'), ('a', 'k')])
+        # default values of several types (tuples, empty containers, None, strings), not only integers
+        lits = rng.sample(DEFAULT_LITERALS, len(DEFAULT_LITERALS)) if (g['dflt'] or any(g['kwonly'])) else None
+        if lits:
+            ctx.count('grid_points_with_varied_default_values')
+            g = dict(g, lits=lits)
         # (1) plain function through fromFunction and through an interface class body
         f, head = mkfunc('meth', vname=vname, kname=kname, **g)
         f.tagged = ('tag', idx)
@@ -176,7 +185,7 @@ def run_c18(ctx, rng, job):
         # (2c) a leading parameter that has a default itself (def meth(self=None, ...)), described as a method
         if g['posonly'] == 0 and g['req'] == 0:
             fd, headd = mkfunc('meth', req=0, dflt=g['dflt'] + 1, varargs=g['varargs'], kwonly=g['kwonly'], kwargs=g['kwargs'],
-                               vname=vname, kname=kname)
+                               vname=vname, kname=kname, lits=lits)
             expd = expected_info(drop_first(inspect.signature(fd)))
             check_desc(ctx, attempt(fromMethod, fd), expd, 'fromMethod-defaulted-self', headd)
             check_desc(ctx, attempt(fromFunction, fd, imlevel=1), expd, 'fromFunction-imlevel1-defaulted-self', headd)
@@ -186,6 +195,14 @@ def run_c18(ctx, rng, job):
         check_desc(ctx, IA['meth'], expb, 'abc', heads)
         nontrivial = bool(g['kwonly']) or g['posonly'] > 0 or g['varargs'] or g['kwargs'] or g['dflt'] > 0
         ctx.shape(('c18', g['posonly'], g['req'], g['dflt'], g['varargs'], g['kwonly'], g['kwargs']), nontrivial)
+        if lits:
+            # the rendering is what str()/repr() of the description and the verification error messages show
+            ctx.ev()
+            try:
+                ok = expected_string(exp) in str(m) or expected_string(exp) in repr(m)
+                str(m), repr(m)
+            except Exception as e:
+                ctx.violation('rendering-description-raised', {'def': head, 'error': repr(e)}, abort=False)
         if ctx.case == 0 and len(ctx.samples) < 3 and g['kwonly'] and g['varargs']:
             ctx.sample({'def': head, 'info': {k: repr(v) for k, v in norm_info(m.getSignatureInfo()).items()},
                         'string': m.getSignatureString()})
@@ -344,7 +361,7 @@ def run_c17(ctx, rng, job):
                          {'form': form, 'interface': hi, 'implementation': hm, 'unbindable_shapes': [list(map(str, s)) for s in bad[:3]]})
             ctx.shape(('c17', form, tuple(sorted(gi.items())), tuple(sorted(gm.items()))), nontrivial=True)
     # multi-error / attribute / declaration cases
-    for _ in range(25):
+    for _ in range(80):
         multi_case(ctx, rng, mod)
     if ctx.case == 0:
         special_cases(ctx, mod)
@@ -363,17 +380,36 @@ def multi_case(ctx, rng, mod):
     for i in range(nattr):
         attrs['x%d' % i] = Attribute('attr %d' % i)
     base_attrs = {}
-    if rng.random() < 0.5:      # names from a base interface count too
+    bm_g = dict(req=1, dflt=0, varargs=False, kwargs=False)
+    if rng.random() < 0.6:      # names from a base interface count too
         base_attrs['bm'] = mkfunc('bm', req=1)[0]
         base_attrs['bx'] = Attribute('base attr')
-    bases = (InterfaceClass('IVB', (Interface,), base_attrs, __module__=mod),) if base_attrs else (Interface,)
+    bases = (Interface,)
+    if base_attrs:
+        # the defining interface sits 1-3 levels up, possibly at the top of a diamond
+        top = InterfaceClass('IVB', (Interface,), base_attrs, __module__=mod)
+        depth = rng.choice([1, 1, 2, 3])
+        chain = top
+        for lvl in range(depth - 1):
+            chain = InterfaceClass('IVB%d' % lvl, (chain,), {}, __module__=mod)
+        bases = (chain,)
+        if rng.random() < 0.3:
+            other = InterfaceClass('IVBo', (top,), {}, __module__=mod)
+            bases = (chain, other) if chain is not top else (other,)
+        ctx.count('multi_base_depth[%d]' % depth)
+        if rng.random() < 0.35:
+            # the verified interface re-declares the inherited method with another signature: candidates are
+            # checked against this (nearest) declaration only, and once
+            bm_g = rng.choice(grid)
+            attrs['bm'] = mkfunc('bm', **bm_g)[0]
+            ctx.count('multi_overridden_method')
     I = InterfaceClass('IVM', bases, attrs, __module__=mod)
     declared = rng.random() < 0.7
     tentative = rng.random() < 0.3
     as_class = rng.random() < 0.4
     ns = {}
     expected = []
-    for name, g in list(meth_g.items()) + ([('bm', dict(req=1, dflt=0, varargs=False, kwargs=False))] if base_attrs else []):
+    for name, g in list(meth_g.items()) + ([('bm', bm_g)] if base_attrs else []):
         r = rng.random()
         if r < 0.3:
             expected.append((BrokenImplementation, name))        # missing method
